@@ -213,7 +213,7 @@ def loop_case(start_off, horizon, oneshots, crons, failing_source, failing_send,
         due = max(off, start_off)
         if off <= horizon - 62:
             ctx = (f", listing takes {slow_listing}s" if slow_listing else "") + (f", host UTC offset {host_offset_h:+}h" if host_offset_h else "")
-            if len(k) != 1: pr.append(f"C15: one-shot schedule with T = start+{off}s (loop started at +{start_off}s{ctx}) was sent {len(k)} times at {[x[0] for x in k]}")
+            if len(k) != 1: pr.append(f"C15: one-shot schedule with T = start+{off}s (loop started at +{start_off}s{ctx}) was sent {len(k)} times at {[x[0] for x in k]} [T is {off % 60:.2f} s after a minute boundary]")
             elif not (due - 1e-6 <= k[0][0] <= due + 1.0 + 1e-6) and off > start_off:
                 for pid in ('C15', 'C14'): pr.append(f"{pid}: one-shot schedule T=+{off}s sent at +{k[0][0]}s by the scheduler loop (not before T and within 1 s after it is required{ctx})")
     for i, c in enumerate(crons):
